@@ -2,5 +2,15 @@
 package drivers
 
 import (
+	_ "verif/harness/drivers/c08webhook"
+	_ "verif/harness/drivers/c09validate"
+	_ "verif/harness/drivers/c12labels"
+	_ "verif/harness/drivers/c13gateway"
+	_ "verif/harness/drivers/c14ingress"
+	_ "verif/harness/drivers/c15custom"
+	_ "verif/harness/drivers/c16lua"
+	_ "verif/harness/drivers/c17advdeploy"
 	_ "verif/harness/drivers/c20conv"
+	_ "verif/harness/drivers/compose"
+	_ "verif/harness/drivers/e1"
 )
